@@ -137,7 +137,10 @@ def corruptions(rng, kind, doc, n):
                     b[f] = copy.deepcopy(a[f])
                 else:
                     b.pop(f, None)
-            b["checksums"] = {"sha256": "e" * 64}
+            if rng.random() < 0.5:
+                b["checksums"] = {"sha256": "e" * 64}
+            else:                                            # same digests plus one more: still not the same checksums
+                b["checksums"] = dict(copy.deepcopy(a["checksums"]), **{"sha1" if "sha1" not in a["checksums"] else "sha512": "1" * 40})
             out.append({"doc": d, "what": "cross-field:two images with one identity and different checksums (cells %s and %s)" % ("/".join(map(str, pa[2:4])), "/".join(map(str, pb[2:4]))), "must_reject": True})
         elif k < 0.55 and kind == "images":
             # cross-field rule: additional variants only on a unified image
